@@ -78,6 +78,9 @@ class Authenticator:
             raise AuthenticationError("invalid: Too old")
         elif since <= -600:
             raise AuthenticationError("invalid: Too new")
+        elif not (since < 600 and since > -600):
+            # neither too old nor too new nor in between: not a timestamp (NaN)
+            raise AuthenticationError("invalid: Bad timestamp")
         found_relay = found_challenge = False
         for tag in auth_event.tags:
             if tag[0] == "relay":
